@@ -230,6 +230,41 @@ fn o_at<'a>(v: &'a Value, toks: &[String]) -> Option<&'a Value> {
     Some(cur)
 }
 
+/// What a plain JSON document answers for a read at these tokens: the node, or the class of the first
+/// step that cannot be taken (missing key / not a container: PathNotFound; array: the index must read as a
+/// usize and be in range).
+fn o_resolve<'a>(v: &'a Value, toks: &[String]) -> Result<&'a Value, &'static str> {
+    let mut cur = v;
+    for t in toks {
+        cur = match cur {
+            Value::Object(m) => m.get(t).ok_or("PathNotFound")?,
+            Value::Array(a) => a.get(o_index(t).ok_or("InvalidArrayIndex")?).ok_or("ArrayIndexOutOfBounds")?,
+            _ => return Err("PathNotFound"),
+        };
+    }
+    Ok(cur)
+}
+
+/// Class of the answer to a write at (non-empty) `toks`: the parent must exist; an object takes any key, an
+/// array only an existing slot.
+fn o_write_class(v: &Value, toks: &[String]) -> Result<(), &'static str> {
+    let (last, parent) = toks.split_last().expect("non-root");
+    match o_resolve(v, parent)? {
+        Value::Object(_) => Ok(()),
+        Value::Array(a) => {
+            if o_index(last).ok_or("InvalidArrayIndex")? < a.len() { Ok(()) } else { Err("ArrayIndexOutOfBounds") }
+        }
+        _ => Err("PathNotFound"),
+    }
+}
+
+fn class_of(r: &RRes) -> Result<(), &str> {
+    match r {
+        Ok(_) => Ok(()),
+        Err((v, _)) => Err(v.as_str()),
+    }
+}
+
 fn o_normalize_prefix(p: &str) -> String {
     let mut n = if p.is_empty() || p == "/" {
         String::new()
@@ -509,10 +544,32 @@ fn apply_checked(out: &mut Out, sys: &mut Sys, op: &OpR, trail: &[String], check
             if after_root != before.root || after_log != before.log {
                 fail(out, "registry.read.mutated", format!("a request with an empty body changed the registry: {}", op.words()));
             }
-            if o_parse(p).is_none() {
-                match &r {
+            match o_parse(p) {
+                None => match &r {
                     Err((v, c)) if v == "InvalidPointer" && *c == ErrorCode::MethodNotFound as u32 => out.count("oracle.malformed_rejected"),
                     other => fail(out, "registry.malformed.not_rejected", format!("malformed pointer {} gave {}", pword(p), show_rres(other))),
+                },
+                Some(toks) => {
+                    let key = o_canon(&toks);
+                    if matches!(op, OpR::Disp(..)) && sys.okeys.contains_key(&key) {
+                        // a metadata read of a callable names it by its escape-normalised pointer
+                        out.count("oracle.function_info");
+                        if r.as_ref().ok() != Some(&json!({"type": "function", "path": key})) {
+                            fail(out, "registry.read.function_info", format!("read of callable {} gave {}", pword(p), show_rres(&r)));
+                        }
+                    } else {
+                        // … anything else reads what a plain JSON document holds there
+                        out.count("oracle.read_vs_document");
+                        let want = o_resolve(&before.root, &toks);
+                        let same = match (&want, &r) {
+                            (Ok(w), Ok(g)) => *w == g,
+                            (Err(w), Err((g, c))) => w == g && *c == 6,
+                            _ => false,
+                        };
+                        if !same {
+                            fail(out, "registry.read.differs", format!("{} on {} gave {}, the document answers {:?}", op.words(), render(&before.root), show_rres(&r), want.map(render)));
+                        }
+                    }
                 }
             }
         }
@@ -542,6 +599,9 @@ fn apply_checked(out: &mut Out, sys: &mut Sys, op: &OpR, trail: &[String], check
                     }
                 }
                 (Some(toks), None) => {
+                    if !toks.is_empty() && o_write_class(&before.root, toks) != class_of(&r) {
+                        fail(out, "registry.write.differs", format!("{} on {} gave {}, a plain document answers {:?}", op.words(), render(&before.root), show_rres(&r), o_write_class(&before.root, toks)));
+                    }
                     if after_log != before.log {
                         fail(out, "registry.call.spurious", format!("a write to non-callable {} invoked a callable", pword(p)));
                     }
@@ -607,7 +667,10 @@ fn apply_checked(out: &mut Out, sys: &mut Sys, op: &OpR, trail: &[String], check
                     }
                 }
                 (Ok(_), None) => fail(out, "registry.malformed.not_rejected", format!("{} accepted a malformed path", op.words())),
-                (Err(_), _) => {
+                (Err(_), toks) => {
+                    if toks.is_some() {
+                        fail(out, "registry.register_value.refused", format!("{} with a well-formed path gave {}", op.words(), show_rres(&r)));
+                    }
                     if after_root != before.root {
                         fail(out, "registry.register.failed_mutated", format!("failed {} changed the tree", op.words()));
                     }
@@ -628,6 +691,14 @@ fn apply_checked(out: &mut Out, sys: &mut Sys, op: &OpR, trail: &[String], check
                     if !ok {
                         fail(out, "registry.register_function.parents", format!("{} left {}", op.words(), render(&after_root)));
                     }
+                    let key = o_canon(&toks);
+                    let info = rres(sys.reg.dispatch(&key, None));
+                    if info.as_ref().ok() != Some(&json!({"type": "function", "path": key})) {
+                        fail(out, "registry.read.function_info", format!("after {} a read of {} gave {}", op.words(), pword(&key), show_rres(&info)));
+                    }
+                }
+                (Err(_), Some(toks)) if !toks.is_empty() => {
+                    fail(out, "registry.register_function.refused", format!("{} with a well-formed non-root path gave {}", op.words(), show_rres(&r)));
                 }
                 (Ok(_), _) => fail(out, "registry.malformed.not_rejected", format!("{} accepted a root or malformed path", op.words())),
                 (Err(_), _) => {
@@ -671,7 +742,19 @@ fn apply_checked(out: &mut Out, sys: &mut Sys, op: &OpR, trail: &[String], check
                     }
                 }
                 (Ok(_), None) => fail(out, "registry.malformed.not_rejected", format!("{} accepted a malformed path", op.words())),
-                (Err(_), _) => {
+                (Err((got, _)), toks) => {
+                    let want = match &toks {
+                        Some(t) if t.is_empty() => Ok(()),
+                        Some(t) => match o_resolve(&before.root, t) {
+                            Ok(Value::Object(_)) => Ok(()),
+                            Ok(_) => Err("PathNotFound"),
+                            Err(e) => Err(e),
+                        },
+                        None => Err("InvalidPointer"),
+                    };
+                    if want != Err(got.as_str()) {
+                        fail(out, "registry.merge.differs", format!("{} on {} gave {}, a plain document answers {:?}", op.words(), render(&before.root), show_rres(&r), want));
+                    }
                     if after_root != before.root {
                         fail(out, "registry.merge.failed_mutated", format!("failed {} changed the tree", op.words()));
                     }
@@ -1498,7 +1581,7 @@ fn main() {
         }
         gen_jp(&mut rng, &mut k, &mut ops, if thorough { 40000 } else { 4000 });
         let len = if thorough { 5 } else { 4 };
-        for (d, l) in [("d1", len), ("d2", len - 1), ("d3", len - 1), ("d4", len - 1), ("d5", len - 1)] {
+        for (d, l) in [("d1", len), ("d2", len), ("d3", len - 1), ("d4", len - 1), ("d5", len - 1)] {
             ops.push(format!("enum {} {} {}", k, d, l));
             k += 1;
         }
